@@ -198,6 +198,38 @@ def prepare(tier, res=None):
     return seeds
 
 
+def _base_task(t):
+    """Every base assignment of a family: the base-only vector against (a) the same fields reversed,
+    (b) every optional metric appended as explicit Not Defined, (c) both."""
+    fam, lo, hi = t
+    from .. import spaces
+    if fam == "2":
+        bases = spaces.v2_base_all()
+    elif fam == "4.0":
+        bases = [(f, d) for f, d in spaces.parts(T.V4_BASE, T.V4)][::37]
+    else:
+        bases = spaces.v3_base_all()
+    acc = sweep.new_acc()
+    nd = T.ND[fam]
+    P = T.PREFIX[fam]
+    tail = "/".join("%s:%s" % (m, nd) for m in T.OPTIONAL[fam])
+    for frag, d in bases[lo:hi]:
+        seed = P + frag
+        f = frag.split("/")
+        variants = [P + "/".join(f[::-1]), seed + "/" + tail, P + tail + "/" + "/".join(f[::-1])]
+        for s in variants:
+            acc["n"] += 1
+            acc["calls"] += 10
+            acc["cmp"] += 1
+            why = compare(fam, seed, s)
+            if why:
+                sweep.bad(acc, {"what": "%s(%r): %s" % (T.CLASSNAME[fam], s, why), "kind": "respell",
+                                "input": s, "seed": seed, "signature": {"kind": "respell"}})
+            else:
+                acc["nontrivial"] += 1
+    return acc
+
+
 def run(ctx, res):
     seeds = prepare(ctx.tier, res)
     accs, st = rewrite.explore(ctx, seeds, neighbours, judge, depth=1, tag="depth1")
@@ -262,6 +294,11 @@ def run(ctx, res):
             tasks.append(("nd", fam, c, mk, mk + 1))
         nd_v4 = len(masks)
     accs += core.task_map(_direct_task, ctx.rot(tasks))
+    btasks = []
+    for fam, n in (("2", 729), ("3.0", 2592), ("3.1", 2592), ("4.0", 2838)):
+        for lo, hi in core.split_range(n, 12):
+            btasks.append((fam, lo, hi))
+    accs += core.task_map(_base_task, btasks)
     tot = sweep.merge(accs)
     cov = res.coverage
     cov["states"] = tot["n"]
